@@ -17,7 +17,8 @@ pub(super) fn generate_method_impl(
     crate_path: &TokenStream,
 ) -> Result<TokenStream, Error> {
     let method_name = &method.sig.ident;
-    let method_name_str = method_name.to_string();
+    // A method named with a raw identifier (`r#type`) is the method `type`.
+    let method_name_str = syn::ext::IdentExt::unraw(method_name).to_string();
 
     let converted_name = snake_case_to_pascal_case(&method_name_str);
     let actual_method_name = method_attrs.rename.as_deref().unwrap_or(&converted_name);
